@@ -3,8 +3,11 @@ use anyhow::ensure;
 use crate::field::extension::Extendable;
 use crate::hash::hash_types::RichField;
 use crate::plonk::circuit_data::CommonCircuitData;
+use crate::hash::merkle_tree::MerkleCap;
 use crate::plonk::config::GenericConfig;
-use crate::plonk::proof::{OpeningSet, Proof, ProofWithPublicInputs};
+use crate::plonk::proof::{
+    CompressedProof, CompressedProofWithPublicInputs, OpeningSet, Proof, ProofWithPublicInputs,
+};
 
 pub(crate) fn validate_proof_with_pis_shape<F, C, const D: usize>(
     proof_with_pis: &ProofWithPublicInputs<F, C, D>,
@@ -34,7 +37,6 @@ where
     F: RichField + Extendable<D>,
     C: GenericConfig<D, F = F>,
 {
-    let config = &common_data.config;
     let Proof {
         wires_cap,
         plonk_zs_partial_products_cap,
@@ -44,6 +46,56 @@ where
         // validate_fri_proof_shape), so we ignore it here.
         opening_proof: _,
     } = proof;
+    validate_caps_and_openings_shape::<F, C, D>(
+        [wires_cap, plonk_zs_partial_products_cap, quotient_polys_cap],
+        openings,
+        common_data,
+    )
+}
+
+/// The compressed counterpart of `validate_proof_with_pis_shape`. The opening proof is checked
+/// separately, once the query indices are known (see `validate_compressed_fri_proof_shape`).
+pub(crate) fn validate_compressed_proof_with_pis_shape<F, C, const D: usize>(
+    proof_with_pis: &CompressedProofWithPublicInputs<F, C, D>,
+    common_data: &CommonCircuitData<F, D>,
+) -> anyhow::Result<()>
+where
+    F: RichField + Extendable<D>,
+    C: GenericConfig<D, F = F>,
+{
+    let CompressedProofWithPublicInputs {
+        proof,
+        public_inputs,
+    } = proof_with_pis;
+    let CompressedProof {
+        wires_cap,
+        plonk_zs_partial_products_cap,
+        quotient_polys_cap,
+        openings,
+        opening_proof: _,
+    } = proof;
+    validate_caps_and_openings_shape::<F, C, D>(
+        [wires_cap, plonk_zs_partial_products_cap, quotient_polys_cap],
+        openings,
+        common_data,
+    )?;
+    ensure!(
+        public_inputs.len() == common_data.num_public_inputs,
+        "Number of public inputs doesn't match circuit data."
+    );
+    Ok(())
+}
+
+fn validate_caps_and_openings_shape<F, C, const D: usize>(
+    caps: [&MerkleCap<F, C::Hasher>; 3],
+    openings: &OpeningSet<F, D>,
+    common_data: &CommonCircuitData<F, D>,
+) -> anyhow::Result<()>
+where
+    F: RichField + Extendable<D>,
+    C: GenericConfig<D, F = F>,
+{
+    let config = &common_data.config;
     let OpeningSet {
         constants,
         plonk_sigmas,
@@ -56,9 +108,9 @@ where
         lookup_zs_next,
     } = openings;
     let cap_height = common_data.fri_params.config.cap_height;
-    ensure!(wires_cap.height() == cap_height);
-    ensure!(plonk_zs_partial_products_cap.height() == cap_height);
-    ensure!(quotient_polys_cap.height() == cap_height);
+    for cap in caps {
+        ensure!(cap.len() == 1 << cap_height);
+    }
     ensure!(constants.len() == common_data.num_constants);
     ensure!(plonk_sigmas.len() == config.num_routed_wires);
     ensure!(wires.len() == config.num_wires);
